@@ -20,6 +20,10 @@ def parseOther (s : String) : Option OtherDef :=
       match m.splitOn ":" with
       | [n, t] => (parseTy t).map fun ty => (n, ty)
       | _ => none)).map .struct
+  else if s.startsWith "R(" && s.endsWith ")" then
+    match (((s.drop 2).dropEnd 1).toString).splitOn "," with
+    | [k, t] => (parseTy t).map fun ty => .resource k ty
+    | _ => none
   else if s.startsWith "A(" && s.endsWith ")" then
     match (((s.drop 2).dropEnd 1).toString).splitOn "," with
     | [t, n] => do pure (.array (← parseTy t) (← n.toNat?))
@@ -37,7 +41,7 @@ def parseVar (s : String) : Option Ty :=
 /-- two array definitions must not coincide: array types are hash-consed in the implementation -/
 def arraysCanonical : List OtherDef → Bool
   | [] => true
-  | d :: r => (match d with | .array _ _ => !r.contains d | _ => true) && arraysCanonical r
+  | d :: r => (match d with | .array _ _ => !r.contains d | .resource _ _ => !r.contains d | _ => true) && arraysCanonical r
 
 /-- the environment of a request: the intrinsic functions come first in the function registry, `void` is the layer
     after the declared ones -/
